@@ -22,10 +22,10 @@ func (fakeGran) CheckConflictAndAlignUp(o, s, ro, rs int, t uint32) (int, bool) 
 	return o, false
 }
 func (fakeGran) RoundUpAllocRequest(t uint32, s int, a uint) (int, uint) { return s, a }
-func (fakeGran) AllocationsConflict(uint32, uint32) bool                  { return false }
-func (fakeGran) StartValidation() any                                     { return nil }
-func (fakeGran) Validate(any, int, int) error                             { return nil }
-func (fakeGran) FinishValidation(any) error                               { return nil }
+func (fakeGran) AllocationsConflict(uint32, uint32) bool                 { return false }
+func (fakeGran) StartValidation() any                                    { return nil }
+func (fakeGran) Validate(any, int, int) error                            { return nil }
+func (fakeGran) FinishValidation(any) error                              { return nil }
 
 // ---------------------------------------------------------------- the block list under test
 
